@@ -188,7 +188,7 @@ def check(ctx, rule, v, r):
     if len(sev) != len(pev):
         rep.violation(rule, rule + '/pairs/count', 'the scalar vector is filled at %d sites, the point vector at %d sites: they cannot be paired' % (len(sev), len(pev)), where)
         return
-    rep.floor(rule, 'paired fill sites', len(sev), 8)
+    rep.floor(rule, 'paired fill sites', len(sev), 4)
     cfg = ix.cfg
     lps = ctx.loops(v)
     # per-proof loop: the outermost loop containing the first fill
